@@ -17,7 +17,8 @@ Record cobs := mkCO {
   co_delivered : Z;     (* complete responses the client received *)
   co_closed : bool;     (* the server called Close on it (closeIdleConns or the worker) *)
   co_handler : bool;    (* a handler is running on it now *)
-  co_idle : Z           (* s.idleConns: 0 = no entry, 1 = active (value 0), 2 = idle since a past time, 3 = fresh (a time in the future) *)
+  co_idle : Z;          (* s.idleConns: 0 = no entry, 1 = active (value 0), 2 = idle since a past time, 3 = fresh (a time in the future) *)
+  co_done : Z           (* the channel ctx.Done() gave to the handler that is running: 0 = no handler running, 1 = open, 2 = closed, 3 = nil *)
 }.
 
 Record obs := mkObs {
@@ -25,7 +26,6 @@ Record obs := mkObs {
   o_serving : Z;                 (* s.serving *)
   o_stop : bool;                 (* s.stop *)
   o_sd : Z;                      (* Shutdown: 0 not called, 1 running, 2 returned nil, 3 returned an error *)
-  o_done : option bool;          (* a Done channel captured by a handler of this server: closed? (None: none captured) *)
   o_loops : list (bool * bool);  (* per Serve call: listener closed, Serve returned *)
   o_conns : list cobs
 }.
@@ -36,11 +36,14 @@ Inductive block := Blk (ops : list label) (holds : list (nat * hold)) (o : obs).
 Record cres := mkCRes {
   cr_client_closed : bool;     (* the client closed the connection at some point *)
   cr_idle_at_shutdown : bool;  (* when Shutdown was called it was an idle keep-alive connection: no handler, no request data, marked idle *)
-  cr_closed_by_first_pass : bool  (* ... and the server had closed it when Shutdown's first loop iteration was over *)
+  cr_closed_by_first_pass : bool; (* ... and the server had closed it when Shutdown's first loop iteration was over *)
+  cr_done_missed : Z           (* handlers on this connection that were told to answer while a Shutdown call was running (or after one had
+                                  given up) and whose ctx.Done() channel was still open at that moment *)
 }.
 
 Inductive c15case :=
-| CRun (cf : cfg) (blocks : list block) (conns : list cres)
+(* failed: some ShutdownWithContext call of this run returned ctx.Err() (after that the delivery guarantee is void) *)
+| CRun (cf : cfg) (failed : bool) (blocks : list block) (conns : list cres)
 (* the harness could not get two agreeing readings of the observables although every goroutine was at rest: not judged *)
 | CUnstable.
 
@@ -129,11 +132,15 @@ Definition settle (cf : cfg) (hs : list (nat * hold)) (s : st) : st :=
 Definition idle_class (s : st) (r : conn) : Z :=
   if inmap r then (if ival r =? 0 then 1 else if ival r <=? now s then 2 else 3) else 0.
 
+Definition done_class (s : st) (r : conn) : Z :=
+  if in_handler r then match cdone r with Some ch => if chan_closed (dn s) ch then 2 else 1 | None => 3 end else 0.
+
 Definition conn_obs_ok (s : st) (r : conn) (o : cobs) : bool :=
   (started r =? co_started o) && (delivered r =? co_delivered o)
   && Bool.eqb (srvClosed r || match pc r with CClosed => negb (hijack r) | _ => false end) (co_closed o)
   && Bool.eqb (in_handler r) (co_handler o)
-  && (idle_class s r =? co_idle o).
+  && (idle_class s r =? co_idle o)
+  && (done_class s r =? co_done o).
 
 Fixpoint forallb2 {A B} (f : A -> B -> bool) (a : list A) (b : list B) : bool :=
   match a, b with
@@ -147,7 +154,6 @@ Definition sd_code (p : spc) : Z :=
 
 Definition obs_ok (s : st) (o : obs) : bool :=
   (open s =? o_open o) && (serving s =? o_serving o) && Bool.eqb (stop s) (o_stop o) && (sd_code (sd s) =? o_sd o)
-  && match o_done o with Some b => Bool.eqb (doneClosed s) b | None => true end
   && forallb2 (fun lp e => Bool.eqb (negb (lnopen lp)) (fst e) && Bool.eqb (negb (lrunning lp)) (snd e)) (loops s) (o_loops o)
   && forallb2 (conn_obs_ok s) (conns s) (o_conns o).
 
@@ -163,20 +169,29 @@ Fixpoint replay (cf : cfg) (s : st) (bs : list block) : option st :=
 
 Definition corr_ok (c : c15case) : bool :=
   match c with
-  | CRun cf bs _ => match replay cf init bs with Some _ => true | None => false end
+  | CRun cf _ bs _ => match replay cf init bs with Some _ => true | None => false end
   | CUnstable => true
   end.
 
 (* ---- the property, judged on what the implementation did ----------------------------------------------------------------------- *)
-(* at the first observation at which Shutdown has returned nil: listeners closed, Serve calls returned, no handler running *)
+(* at the observation at which a Shutdown call has returned nil (it was running at the previous observation, or it was called and returned
+   within this action): listeners closed, Serve calls returned, no handler running, nothing counted *)
 Definition returned_ok (o : obs) : bool :=
-  if o_sd o =? 2 then
-    forallb (fun e => fst e && snd e) (o_loops o) && forallb (fun c => negb (co_handler c)) (o_conns o) && (o_open o =? 0)
-  else true.
+  forallb (fun e => fst e && snd e) (o_loops o) && forallb (fun c => negb (co_handler c)) (o_conns o) && (o_open o =? 0).
 
-(* Done channels are closed once Shutdown has passed close(s.done): at every observation made while it runs or after it returned *)
+Definition is_setstop (l : label) : bool := match l with LSetStop => true | _ => false end.
+
+Fixpoint returns_ok (prev : Z) (bs : list block) : bool :=
+  match bs with
+  | [] => true
+  | Blk ops _ o :: r =>
+      (if (o_sd o =? 2) && ((prev =? 1) || existsb is_setstop ops) then returned_ok o else true) && returns_ok (o_sd o) r
+  end.
+
+(* Done channels are closed once Shutdown has begun: at every observation made while a call runs (the observation comes after it has passed
+   close(s.done)) or after a call has given up, every handler that is running holds a closed channel - in every Serve / Shutdown cycle *)
 Definition done_ok (o : obs) : bool :=
-  if o_sd o =? 0 then true else match o_done o with Some b => b | None => true end.
+  if (o_sd o =? 1) || (o_sd o =? 3) then forallb (fun c => (co_done c =? 0) || (co_done c =? 2)) (o_conns o) else true.
 
 Definition last_obs (bs : list block) : option obs := match rev bs with Blk _ _ o :: _ => Some o | [] => None end.
 
@@ -187,11 +202,12 @@ Definition idle_ok (r : cres) : bool := if cr_idle_at_shutdown r then cr_closed_
 
 Definition prop_ok (c : c15case) : bool :=
   match c with
-  | CRun _ bs conns =>
-      forallb (fun b => match b with Blk _ _ o => returned_ok o && done_ok o end) bs
+  | CRun _ failed bs conns =>
+      returns_ok 0 bs && forallb (fun b => match b with Blk _ _ o => done_ok o end) bs
       && forallb idle_ok conns
+      && forallb (fun r => cr_done_missed r =? 0) conns     (* no request in flight during a shutdown was left with an open Done channel *)
       && match last_obs bs with
-         | Some o => if o_sd o =? 2 then forallb2 answered_ok (o_conns o) conns else true
+         | Some o => if (o_sd o =? 2) && negb failed then forallb2 answered_ok (o_conns o) conns else true
          | None => true
          end
   | CUnstable => true
